@@ -136,6 +136,7 @@ class SSHChannel(Generic[AnyStr], SSHPacketHandler):
         self._recv_pktsize = max_pktsize
         self._recv_paused: Union[bool, str] = 'starting'
         self._recv_buf: List[Tuple[bytes, DataType]] = []
+        self._recv_buf_len = 0
 
         self._request_queue: List[Tuple[str, SSHPacket, bool]] = []
 
@@ -266,6 +267,7 @@ class SSHChannel(Generic[AnyStr], SSHPacketHandler):
 
         # Discard unreceived data
         self._recv_buf = []
+        self._recv_buf_len = 0
         self._recv_paused = False
 
         # If recv is close_pending, we know send is already closed
@@ -344,7 +346,9 @@ class SSHChannel(Generic[AnyStr], SSHPacketHandler):
         """Flush as much data in the recv buffer as the application allows"""
 
         while self._recv_buf and not self._recv_paused:
-            self._deliver_data(*self._recv_buf.pop(0))
+            data, datatype = self._recv_buf.pop(0)
+            self._recv_buf_len -= len(data)
+            self._deliver_data(data, datatype)
 
         if not self._recv_buf and self._recv_paused != 'starting':
             if self._encoding and not exc and \
@@ -414,6 +418,7 @@ class SSHChannel(Generic[AnyStr], SSHPacketHandler):
 
         if self._recv_paused:
             self._recv_buf.append((data, datatype))
+            self._recv_buf_len += len(data)
         else:
             self._deliver_data(data, datatype)
 
@@ -586,7 +591,9 @@ class SSHChannel(Generic[AnyStr], SSHPacketHandler):
 
         datalen = len(data)
 
-        if datalen > self._recv_window:
+        # Data buffered while reading is paused still counts against
+        # the window which was advertised to the peer
+        if datalen > self._recv_window - self._recv_buf_len:
             raise ProtocolError('Window exceeded')
 
         self.logger.debug2('Received %d data byte%s', datalen,
@@ -610,7 +617,9 @@ class SSHChannel(Generic[AnyStr], SSHPacketHandler):
 
         datalen = len(data)
 
-        if datalen > self._recv_window:
+        # Data buffered while reading is paused still counts against
+        # the window which was advertised to the peer
+        if datalen > self._recv_window - self._recv_buf_len:
             raise ProtocolError('Window exceeded')
 
         self.logger.debug2('Received %d data byte%s from %s', datalen,
